@@ -103,6 +103,22 @@ def call_cheat(addr, sig, word_args, mem=0x300, ret=0):
     return toks
 
 
+def call_raw(addr, data: bytes, mem=0x300, ret=0x500, ret_size=32):
+    """CALL addr with literal calldata; the return data is copied to mem[ret:ret+ret_size]; leaves the success flag"""
+    toks = []
+    padded = data + bytes((-len(data)) % 32)
+    for i in range(0, len(padded), 32):
+        toks += [("push", int.from_bytes(padded[i : i + 32], "big"), 32), mem + i, "MSTORE"]
+    toks += [ret_size, ret, len(data), mem, 0, ("push", addr, 20), 0xFFFF, "CALL"]
+    return toks
+
+
+def svm_create_uint256(name: str, ret=0x500):
+    """svm.createUint256(name): leaves the fresh symbol on the stack"""
+    data = abi.selector("createUint256(string)") + abi.encode_tuple([("string",)], [name.encode()])
+    return call_raw(SVM, data, ret=ret) + ["POP", ret, "MLOAD"]
+
+
 def vm(sig, *word_args):
     return call_cheat(HEVM, sig, word_args) + ["POP"]
 
